@@ -120,8 +120,9 @@ def check(repo: Repo, run: Run) -> None:
     if ok_sorted:
         kw = dict(lst.a[2])
         k = kw.get("key")
-        key_ok = k is not None and k.op == "lambda" and len(k.a) > 1 and k.a[1].op == "attr" and k.a[1].a[1] == "load_addr" \
-            and k.a[1].a[0].op == "bound"
+        key_ok = k is not None and (
+            (k.op == "lambda" and len(k.a) > 1 and k.a[1].op == "attr" and k.a[1].a[1] == "load_addr" and k.a[1].a[0].op == "bound")
+            or k == T("call", (T("global", ("operator.attrgetter",)), (const("load_addr"),), ())))
         rev = "reverse" in kw and sym.truth(kw["reverse"]) is not False
     run.ob("R2", M, e.func_name, "image list sorted by load address, ascending", ok_sorted and key_ok and not rev,
            "" if ok_sorted and key_ok and not rev else "the launch trace's image list is not sorted(..., key=<load_addr>) ascending",
